@@ -154,3 +154,11 @@ def match_known(open_findings: list, key: dict):
         if m and all(key.get(k) == v for k, v in m.items()):
             return f
     return None
+
+
+def dump_digests(prop: str, results: dict):
+    """Self-test support: VERIF_DIGESTS=<path> makes every driver write {run index: digest}."""
+    path = os.environ.get("VERIF_DIGESTS")
+    if path:
+        with open(path, "w") as f:
+            json.dump({"property": prop, "digests": {str(i): results[i]["log_digest"] for i in sorted(results)}}, f)
